@@ -276,3 +276,21 @@ Proof.
   rewrite (sumR_delta CxR W v0 (fun v => s u0 v * ((ofR (INR H) : CxR) * ofR (INR W))) Hv0).
   now apply scale_inv.
 Qed.
+Theorem idft_add H W s t : weq H W (idft H W (rmadd s t)) (rmadd (idft H W s) (idft H W t)).
+Proof.
+  intros i j _ _. unfold idft, rmadd.
+  rewrite (sumR_ext CxR H _ (fun u => xsum W (fun v => xmul (s u v) (xconj (wt H W u v i j)) : CxR) + xsum W (fun v => xmul (t u v) (xconj (wt H W u v i j)) : CxR))).
+  - rewrite sumR_add. xr.
+  - intros u _. rewrite <- sumR_add. apply sumR_ext; intros v _. xr.
+Qed.
+Theorem idft_scale H W c s : weq H W (idft H W (rmscale c s)) (rmscale c (idft H W s)).
+Proof.
+  intros i j _ _. unfold idft, rmscale.
+  rewrite (sumR_ext CxR H _ (fun u => c * xsum W (fun v => xmul (s u v) (xconj (wt H W u v i j)) : CxR))).
+  - rewrite sumR_mul_l. xr.
+  - intros u _. rewrite <- sumR_mul_l. apply sumR_ext; intros v _. xr.
+Qed.
+Lemma xdiv_add a b d : xdiv (xadd a b) d = xadd (xdiv a d) (xdiv b d).
+Proof. unfold xdiv. ring. Qed.
+Lemma xdiv_scale c a d : xdiv (xmul c a) d = xmul c (xdiv a d).
+Proof. unfold xdiv. ring. Qed.
